@@ -12,11 +12,13 @@ import (
 	"io"
 	"math/rand"
 	"os"
+	"time"
 
 	"github.com/tdewolff/parse/v2/buffer"
 
 	"verif/harness/internal/reg"
 	"verif/harness/internal/tr"
+	"verif/harness/internal/wd"
 )
 
 var errBoom = errors.New("boom")
@@ -277,6 +279,7 @@ func Replay(args []string) {
 	out := fs.String("out", "", "trace file")
 	sample := fs.Int("sample", 200, "keep the trace of every n-th execution that agrees with the model (all others that differ are kept)")
 	fs.Parse(args)
+	wd.Start(*out+".hang", 20*time.Second)
 	w := tr.NewWriter(*out)
 	sum := summary{Suite: "stream", Mode: "replay", Hooks: hooksOn}
 	seen := map[string]bool{}
@@ -294,6 +297,7 @@ func Replay(args []string) {
 		seen[string(raw)] = true
 		tid++
 		sum.Executions++
+		wd.Case(sc)
 		w.Begin(tid)
 		x := start(w, &sc)
 		mism := false
@@ -347,6 +351,7 @@ func Record(args []string) {
 	seed := fs.Int64("seed", 1, "seed")
 	long := fs.Int("long", 0, "additionally this many long-stream traces for the memory clause")
 	fs.Parse(args)
+	wd.Start(*out+".hang", 60*time.Second)
 	rng := rand.New(rand.NewSource(*seed))
 	w := tr.NewWriter(*out)
 	sum := summary{Suite: "stream", Mode: "record", Hooks: hooksOn}
@@ -408,6 +413,7 @@ func Record(args []string) {
 		if isLong {
 			disc = 1
 		}
+		wd.Case(map[string]interface{}{"mode": sc.Mode, "size": sc.Size, "endKind": sc.EndKind, "sched": sc.Sched, "data": sc.Data, "note": "random history; ops are in the trace so far"})
 		w.Begin(t)
 		x := start(w, &sc)
 		sum.Executions++
